@@ -259,6 +259,25 @@ func (h *SH) Put(ctx context.Context, tok int, payload string) (int, error) {
 	return len(payload), nil
 }
 
+// SubLeaky streams until its context ends and then simply returns: its channel is never closed (a producer
+// that treats cancellation as "stop", which is all a handler owes the library).
+func (h *SH) SubLeaky(ctx context.Context, tok int) (<-chan int, error) {
+	h.C.enter(ctx, "SubLeaky", tok)
+	out := make(chan int)
+	go func() {
+		defer h.C.exit(tok, "stream-stop")
+		for i := 0; ; i++ {
+			select {
+			case out <- tok*1000000 + i:
+				time.Sleep(300 * time.Microsecond)
+			case <-ctx.Done():
+				return
+			}
+		}
+	}()
+	return out, nil
+}
+
 // SubBoth is Sub declared with a bidirectional channel type (`chan int`, as a handler written without the
 // arrow would be): still a subscription in every respect.
 func (h *SH) SubBoth(ctx context.Context, tok int, n int) (chan int, error) {
@@ -481,6 +500,7 @@ type CL struct {
 	CallBackBlock func(context.Context, int) (int, error)
 	SubOdd        func(context.Context, int, int) (<-chan float64, error)
 	SubBoth       func(context.Context, int, int) (<-chan int, error)
+	SubLeaky      func(context.Context, int) (<-chan int, error)
 	Put           func(context.Context, int, string) (int, error)
 	Div           func(float64, float64) (float64, error)
 	Boom          func(int) `notify:"true"`
